@@ -289,7 +289,7 @@ def restart(ctx, rng, idx):
             if s.rname.startswith("muscl"):
                 ctx.skip("restart-fresh:frozen-jacobian-with-limiter")
             else:
-                ctx.close("restart-fresh-linear", d["max data diff / max|q|"], 1e-5 * max(1.0, cfl), "restart/fresh-object/state-differs/implicit-linear", d, cls="restart-fresh-object")
+                ctx.close("restart-fresh-linear", d["max data diff / max|q|"], 1e-4 * max(1.0, cfl), "restart/fresh-object/state-differs/implicit-linear", d, cls="restart-fresh-object")
         else:
             ctx.true("restart-fresh-object", _same(full[-1], t3[-1]), "restart/fresh-object/state-differs/" + who, _diff(full[-1], t3[-1]), cls="restart-fresh-object")
         ctx.true("restart-fresh-object", S3.totnit() == N + M, "restart/fresh-object/cumulative-iteration-count", {"totnit": S3.totnit()}, cls="restart-fresh-object")
